@@ -6,7 +6,8 @@
 (* A run has a configuration: everything the sentence says must NOT matter                         *)
 (*    seed   PYTHONHASHSEED of the process                  0 | 1 | 2 | random                     *)
 (*    loc    which output directory (two absolute paths)    A | B                                  *)
-(*    pre    what is in the output directory before         none | stale | unrelated               *)
+(*    pre    what is in the output directory before         none | stale | unrelated | crlf        *)
+(*           (crlf = the previous output of the same generation with the line endings changed)    *)
 (*    order  the order in which the snippets are listed     natural | reversed | shuffled          *)
 (*    proc   fresh interpreter or a process that already ran other generations   sub | inproc      *)
 (*    cache  state of the model cache in the temp dir       cold | warm                            *)
@@ -50,7 +51,7 @@ Proj(c, L) == [d \in L |-> c[d]]
 \* the harness can set up "stale" only if a previous run left output in that directory, "warm" only after some run;
 \* it can always empty the directory / the cache or put unrelated files there
 Feasible(c) ==
-    /\ c.pre = "stale" => dirs[c.loc] = "output"
+    /\ c.pre \in {"stale", "crlf"} => dirs[c.loc] = "output"
     /\ c.cache = "warm" => warm
 
 Init == /\ k = 0 /\ leaks \in LeakSets /\ dirs = [l \in Values.loc |-> "empty"] /\ warm = FALSE /\ cached = [d \in {} |-> ""] /\ digests = <<>>
